@@ -55,6 +55,12 @@ class Prop(common.PropertyCheck):
             yield {'res': 1024, 'units': rng.choice(['raw', 'rfi']), 'scale': 'cubic', 'badlist': badsc, 'n': rng.choice([None, 8]), 'chform': 'list', 'over': None,
                    'seed': rng.randrange(1 << 30)}
 
+        # the same channel requested more than once with different bin counts; positions counted from the end (alone and inside lists)
+        for i in range(self.budget(36, 300)):
+            yield {'res': [256, 1024, 4096, 1000][i % 4], 'units': ['raw', 'rfi', 'mef'][(i // 2) % 3], 'scale': ['logicle', 'linear', 'log'][i % 3], 'n': [None, 17][(i // 3) % 2],
+                   'chform': ['repeat', 'neg1', 'repeat3', 'list_neg', 'neg3'][i % 5], 'over': None, 'dt': ['I', 'F'][(i // 5) % 2], 'tinyneg': i % 7 == 0, 'nan': False,
+                   'seed': rng.randrange(1 << 30)}
+
     def sample(self, case):
         import random
         r = random.Random(case['seed'])
@@ -93,11 +99,21 @@ class Prop(common.PropertyCheck):
             ch, cols = [names[1], names[0]], [1, 0]
         elif chf == 'list_mixed':
             ch, cols = [2, names[1]], [2, 1]
+        elif chf == 'repeat':
+            ch, cols = [names[1], names[1]], [1, 1]
+        elif chf == 'repeat3':
+            ch, cols = [names[1], 1, names[0]], [1, 1, 0]
+        elif chf == 'neg1':
+            ch, cols = -1, [len(names) - 1]
+        elif chf == 'neg3':
+            ch, cols = -len(names), [0]
+        elif chf == 'list_neg':
+            ch, cols = [-1, names[0], -2], [len(names) - 1, 0, len(names) - 2]
         else:
             ch, cols = None, [0, 1, 2]
         n = case['n']
         scale = case['scale']
-        scalar = chf in ('name', 'pos')
+        scalar = chf in ('name', 'pos', 'neg1', 'neg3')
         kw = {}
         if case['over'] and scale == 'logicle':
             kw = {'T': {'T': 5e4}, 'M': {'M': 5.0}, 'W': {'W': 0.8}, 'W0': {'W': 0 if case['seed'] % 2 else 0.0}, 'Wbig': {'W': 3.0},
@@ -107,6 +123,10 @@ class Prop(common.PropertyCheck):
             nb = None
         if chf == 'list' and n == 17:
             nb = [17, 5]
+        if chf == 'repeat':
+            nb = [n, 5] if n else [256, 64]
+        if chf in ('repeat3', 'list_neg'):
+            nb = [None, 5, n] if n else [33, None, 5]
         if chf == 'list_mixed' and scale != 'cubic':
             sc = [scale, 'linear']
         else:
@@ -216,7 +236,7 @@ class Prop(common.PropertyCheck):
                     impl['cols'][i], impl['ranges'][i], impl['resol'][i], dcl[2], dcl[2] - 1)
         for i, v in (impl.get('tmw_doc') or {}).items():
             for nm, w, g in zip('TMW', v[:3], v[3:]):
-                if abs(g - w) > 2e-6 * max(1.0, abs(w)):
+                if common.far(g, w, 2e-6 * max(1.0, abs(w))):
                     return 'logicle parameter %s used for the bins of channel %s is %r, the documented rule gives %r (overrides %s)' % (nm, impl['cols'][int(i)], g, w, case['over'])
         if impl.get('history_ok') not in (None, True):
             return 'a second hist_bins query on the same object with other %s values differs from the same query on a fresh object (%s)' % (case['over'], impl['history_ok'])
@@ -261,7 +281,7 @@ class Prop(common.PropertyCheck):
                         return '%s scale, default bins: representable values %s do not fall in their own bins' % (scale, bad)
                     k = res // 3
                     centre = (e[k] + e[k + 1]) / 2 if scale == 'linear' else math.sqrt(e[k] * e[k + 1])
-                    if abs(centre - vals[k]) > 1e-9 * max(1, abs(vals[k])):
+                    if common.far(centre, vals[k], 1e-9 * max(1, abs(vals[k]))):
                         return '%s scale: value %r is not at the centre %r of its bin' % (scale, vals[k], centre)
             dd = (impl.get('logicle_doc_dev') or {}).get(str(i))
             if dd and dd[0] > (3e-6 if case.get('dt') == 'F' else 1e-9):
@@ -307,7 +327,7 @@ class Prop(common.PropertyCheck):
         # single-precision samples: the data-derived W is a float32 scalar and NumPy 2 then evaluates the logicle expressions in single precision
         rel = 2e-6 if (case.get('dt') == 'F' and impl['scales'][0] == 'logicle') else 1e-9
         for a, b in zip(me, ie):
-            if abs(a - b) > rel * (abs(b) + (span if impl['scales'][0] == 'linear' else 0) + 1e-300) and abs(a - b) > 1e-7 * abs(ie[1] - ie[0]):
+            if common.far(a, b, rel * (abs(b) + (span if impl['scales'][0] == 'linear' else 0) + 1e-300)) and common.far(a, b, 1e-7 * abs(ie[1] - ie[0])):
                 return '%s edges: Lean Float %r vs implementation %r' % (impl['scales'][0], a, b)
         return None
 
